@@ -1,0 +1,22 @@
+//go:build verif
+
+package fasthttputil
+
+// Read-only views for the C33 correspondence harness (/verif/harness/c33).
+
+// VerifPipeSnapshot returns, for the direction Conn1->Conn2 and then Conn2->Conn1, the number of
+// queued buffers and the length of the reader's current buffer, plus the channel capacity.
+// Must only be called while no Read/Write is in progress on the pipe.
+func VerifPipeSnapshot(pc *PipeConns) (snap [4]int, capacity int) {
+	// written at c1 = c1.wCh = c2.rCh, read at c2 (c2.bb)
+	snap[0] = len(pc.c1.wCh)
+	snap[1] = len(pc.c2.bb)
+	snap[2] = len(pc.c2.wCh)
+	snap[3] = len(pc.c1.bb)
+	return snap, cap(pc.c1.wCh)
+}
+
+// VerifListenerPending returns the number of queued, not yet accepted connections and the queue capacity.
+func VerifListenerPending(ln *InmemoryListener) (pending, capacity int) {
+	return len(ln.conns), cap(ln.conns)
+}
